@@ -290,6 +290,63 @@ func checkLineCounter(c *Ctx, p *core.Prog, rule string) {
 			bad = fmt.Sprintf("an iteration that %s changes line + held line breaks by %s (expected %+d): line numbers run ahead of or fall behind the input; %s", what, ch, want, describe(it.path))
 		}
 	}
+	// ---- R03.14: the words of a line are filed under the line number as it stood when the iteration began --------
+	// (the held-back line breaks are paid after the hand-over, on every path alike: a path that pays them first files
+	// the remainder of a hyphenated word one line later than the path that flushes it at a blank)
+	badArg, nArg := "", 0
+	for _, it := range iters {
+		for _, b := range it.path.Blocks {
+			for _, in := range b.Instrs {
+				call, ok := in.(*ssa.Call)
+				if !ok {
+					continue
+				}
+				f := call.Call.StaticCallee()
+				if f == nil {
+					continue
+				}
+				for i, a := range call.Call.Args {
+					if i >= len(f.Params) || !isInt(a.Type()) || !isLineParam(f, i, 0) {
+						continue
+					}
+					nArg++
+					le := eval(a, it.path, 0)
+					if badArg == "" && !(le.k == 0 && len(le.co) == 1 && le.co[linePhi] == 1) {
+						// a held counter that the path knows to be zero does not count
+						onlyZeroHeld := le.k == 0 && le.co[linePhi] == 1
+						for s2 := range le.co {
+							if s2 == ssa.Value(linePhi) {
+								continue
+							}
+							known := false
+							for _, l := range it.path.Lits {
+								if bo, ok := l.Cond.(*ssa.BinOp); ok && bo.X == s2 {
+									if k, isK := core.ConstInt(bo.Y); isK && k == 0 && ((bo.Op == token.GTR && !l.Truth) || (bo.Op == token.EQL && l.Truth) || (bo.Op == token.NEQ && !l.Truth) || (bo.Op == token.LEQ && l.Truth)) {
+										known = true
+									}
+								}
+							}
+							if !known {
+								onlyZeroHeld = false
+							}
+						}
+						if !onlyZeroHeld {
+							ch := fmt.Sprintf("%+d", le.k)
+							for s2, n2 := range le.co {
+								ch += fmt.Sprintf(" %+d*%s", n2, core.AP(s2))
+							}
+							badArg = fmt.Sprintf("the line number handed to %s at %s is %s, not the line counter as the iteration found it: the same words get another line number on this path than on the others; %s", f.Name(), p.Pos(call.Pos()), ch, describe(it.path))
+						}
+					}
+				}
+			}
+		}
+	}
+	r14 := strings.Replace(rule, "R03.9", "R03.14", 1)
+	if nArg > 0 {
+		c.R.Check(badArg == "", r14, "tokenizeStream: the words of a line are handed over under the line number the iteration began with", p.Pos(linePhi.Pos()),
+			fmt.Sprintf("%d hand-overs on the enumerated paths, each with the loop's line counter unchanged", nArg), badArg)
+	}
 	okDetail := fmt.Sprintf("%d paths through one iteration (%d consume a newline); line + held counters %v advance by exactly one on a newline and not otherwise", len(iters), nNewline, heldNames)
 	c.R.Check(bad == "", rule, "tokenizeStream: the line count (with held-back line breaks) advances by exactly one per consumed newline", p.Pos(linePhi.Pos()), okDetail, bad)
 	c.R.RequireMin(rule, "iterations that consume a newline", nNewline, 1)
